@@ -433,6 +433,8 @@ pub struct ExploreStats {
     pub max_trace: usize,
     pub pruned_by_bound: u64,
     pub capped: bool,
+    /// the largest preemption count all of whose schedules were executed (None: not even the first round finished)
+    pub completed_bound: Option<u32>,
 }
 
 pub struct ExploreCfg<'a> {
@@ -449,83 +451,116 @@ pub struct ExploreCfg<'a> {
     pub max_executions: u64,
 }
 
-/// Depth-first exploration by re-execution. `run` executes one schedule (given as a choice prefix) and
-/// returns its result after having checked the oracle; it returns false to stop the search.
+/// Exploration by re-execution with iterative preemption bounding: all schedules with 0 preemptions first (depth
+/// first among them), then those with 1, then 2, ... up to `cfg.bound` (or until none is left). A schedule needing
+/// b preemptions is executed exactly once, in round b: the children that exceed the current round's bound are kept
+/// for the next round instead of being re-derived. `run` executes one schedule (given as a choice prefix) and
+/// returns its result after having checked the oracle; it returns false to stop the search. The first
+/// counterexample found is therefore one with the fewest preemptions. A wall-time budget (`KTMC_CASE_BUDGET_S`,
+/// default by tier) ends an exploration early; that is reported as a cap together with the last completed bound,
+/// never as exhaustive.
 pub fn explore<F: FnMut(&[u8], bool) -> (ExecResult, bool)>(cfg: &ExploreCfg, mut run: F) -> ExploreStats {
     let mut stats = ExploreStats::default();
-    // stack of (prefix, number of deviations in it beyond the root, owned)
+    let started = Instant::now();
+    let budget = Duration::from_secs(std::env::var("KTMC_CASE_BUDGET_S").ok().and_then(|v| v.parse().ok()).unwrap_or(900));
+    // stack of (prefix, number of deviations in it beyond the root, owned) for the current round; `later` holds the
+    // prefixes whose preemption count is one above the current round's
     let mut stack: Vec<(Vec<u8>, usize, bool)> = vec![(cfg.root.clone(), 0, true)];
+    let mut later: Vec<(Vec<u8>, usize, bool)> = Vec::new();
+    let mut round: u32 = 0;
     let mut split_counter: u64 = 0;
-    while let Some((prefix, devs, owned)) = stack.pop() {
-        if stats.executions >= cfg.max_executions {
-            stats.capped = true;
-            break;
-        }
-        // executions above the split level are run by every shard but counted by shard 0 only
-        let counted = if devs < cfg.split_level { cfg.shard.0 == 0 } else { owned };
-        let (res, go_on) = run(&prefix, counted);
-        if std::env::var_os("KTMC_DEBUG").is_some() && stats.executions % 500 == 0 {
-            eprintln!("explore: {} executions, stack {}, prefix {} trace {} pre {} phases {:?}", stats.executions, stack.len(), fmt_choices(&prefix), res.trace.len(), res.preemptions(), res.trace.iter().map(|c| c.phase).max());
-        }
-        if counted {
-            stats.executions += 1;
-            let p = res.preemptions() as usize;
-            if stats.by_preemptions.len() <= p {
-                stats.by_preemptions.resize(p + 1, 0);
+    let mut stopped = false;
+    let mut first = true;
+    loop {
+        while let Some((prefix, devs, owned)) = stack.pop() {
+            if stats.executions >= cfg.max_executions || started.elapsed() > budget || later.len() > 4_000_000 {
+                stats.capped = true;
+                break;
             }
-            stats.by_preemptions[p] += 1;
-            stats.choice_points += res.trace.len() as u64;
-            stats.max_trace = stats.max_trace.max(res.trace.len());
-        }
-        if !go_on {
-            break;
-        }
-        if res.divergence.is_some() || res.stalled {
-            break;
-        }
-        let choices = res.choices();
-        // children in reverse order so that the earliest deviation is explored first (DFS, simplest first)
-        let mut children: Vec<(Vec<u8>, usize, bool)> = Vec::new();
-        let mut pre: u32 = res.trace[..prefix.len().min(res.trace.len())].iter().filter(|c| c.chosen != 0 && c.runner_enabled).count() as u32;
-        for i in prefix.len()..res.trace.len() {
-            let c = &res.trace[i];
-            if (cfg.branch)(c) && c.enabled.len() > 1 {
-                if counted {
-                    stats.branching_points += 1;
+            // executions above the split level are run by every shard but counted by shard 0 only
+            let counted = if devs < cfg.split_level { cfg.shard.0 == 0 } else { owned };
+            let (res, go_on) = run(&prefix, counted);
+            if std::env::var_os("KTMC_DEBUG").is_some() && stats.executions % 500 == 0 {
+                eprintln!("explore: round {} {} executions, stack {}, later {}, prefix {} trace {} pre {} phases {:?}", round, stats.executions, stack.len(), later.len(), fmt_choices(&prefix), res.trace.len(), res.preemptions(), res.trace.iter().map(|c| c.phase).max());
+            }
+            if counted {
+                stats.executions += 1;
+                let p = res.preemptions() as usize;
+                if stats.by_preemptions.len() <= p {
+                    stats.by_preemptions.resize(p + 1, 0);
                 }
-                for alt in 1..c.enabled.len() {
-                    let cost = pre + if c.runner_enabled { 1 } else { 0 };
-                    if let Some(b) = cfg.bound {
-                        if cost > b {
-                            if counted {
-                                stats.pruned_by_bound += 1;
+                stats.by_preemptions[p] += 1;
+                stats.choice_points += res.trace.len() as u64;
+                stats.max_trace = stats.max_trace.max(res.trace.len());
+            }
+            if !go_on || res.divergence.is_some() || res.stalled {
+                stopped = true;
+                break;
+            }
+            let choices = res.choices();
+            // children in reverse order so that the earliest deviation is explored first (simplest first)
+            let mut children: Vec<(Vec<u8>, usize, bool)> = Vec::new();
+            let mut pre: u32 = res.trace[..prefix.len().min(res.trace.len())].iter().filter(|c| c.chosen != 0 && c.runner_enabled).count() as u32;
+            if first {
+                // a root prefix may already contain preemptions: the rounds are numbered by total preemptions
+                round = pre;
+                first = false;
+            }
+            for i in prefix.len()..res.trace.len() {
+                let c = &res.trace[i];
+                if (cfg.branch)(c) && c.enabled.len() > 1 {
+                    if counted {
+                        stats.branching_points += 1;
+                    }
+                    for alt in 1..c.enabled.len() {
+                        let cost = pre + if c.runner_enabled { 1 } else { 0 };
+                        if let Some(b) = cfg.bound {
+                            if cost > b {
+                                if counted {
+                                    stats.pruned_by_bound += 1;
+                                }
+                                continue;
                             }
+                        }
+                        let mut child = choices[..i].to_vec();
+                        child.push(alt as u8);
+                        let cdevs = devs + 1;
+                        let cowned = if cdevs == cfg.split_level {
+                            let mine = split_counter % cfg.shard.1 == cfg.shard.0;
+                            split_counter += 1;
+                            mine
+                        } else {
+                            owned
+                        };
+                        if cdevs >= cfg.split_level && !cowned {
                             continue;
                         }
+                        if cost > round {
+                            later.push((child, cdevs, cowned));
+                        } else {
+                            children.push((child, cdevs, cowned));
+                        }
                     }
-                    let mut child = choices[..i].to_vec();
-                    child.push(alt as u8);
-                    let cdevs = devs + 1;
-                    let cowned = if cdevs == cfg.split_level {
-                        let mine = split_counter % cfg.shard.1 == cfg.shard.0;
-                        split_counter += 1;
-                        mine
-                    } else {
-                        owned
-                    };
-                    if cdevs >= cfg.split_level && !cowned {
-                        continue;
-                    }
-                    children.push((child, cdevs, cowned));
+                }
+                if c.chosen != 0 && c.runner_enabled {
+                    pre += 1;
                 }
             }
-            if c.chosen != 0 && c.runner_enabled {
-                pre += 1;
+            for ch in children.into_iter().rev() {
+                stack.push(ch);
             }
         }
-        for ch in children.into_iter().rev() {
-            stack.push(ch);
+        if stopped || stats.capped {
+            break;
         }
+        // the round is complete: every schedule with at most `round` preemptions (of this shard's share) was executed
+        stats.completed_bound = Some(round);
+        if later.is_empty() {
+            break;
+        }
+        round += 1;
+        later.reverse();
+        stack = std::mem::take(&mut later);
     }
     stats
 }
